@@ -10,10 +10,18 @@ from vt.explore.chooser import explore, obs_hash
 from vt.runner import ShardResult
 
 PROPERTY = "C01"
-FLAVOURS = ("py26", "py27", "ext", "twisted", "tt", "stream", "none")
+FLAVOURS = ("py26", "py27", "ext", "twisted", "tt", "stream", "none", "py27_falsy")
+
+
+class FalsyPy27(rec.Py27):
+    """A 2.7-style result that happens to be falsy (it has a length: a collecting result)."""
+
+    def __len__(self):
+        return 0
+
 UNSUCCESSFUL = ("addError", "addFailure", "addUnexpectedSuccess")
 FINAL_STATES = ("exists", "xfail", "uxsuccess", "success", "fail", "skip", "unknown")
-DECORATORS = ("skip_method", "skipIf_method", "skipUnless_method", "skipIf_false", "skip_class", "xfail_decorator", "skip_empty_reason", "skipIf_empty_reason", "unittest_skip_bare")
+DECORATORS = ("skip_method", "skipIf_method", "skipUnless_method", "skipIf_false", "skip_class", "xfail_decorator", "skip_empty_reason", "skipIf_empty_reason", "unittest_skip_bare", "run_test_with_default")
 
 
 def make_result(flavour):
@@ -22,6 +30,8 @@ def make_result(flavour):
         r = rec.Py26()
     elif flavour == "py27":
         r = rec.Py27()
+    elif flavour == "py27_falsy":
+        r = FalsyPy27()
     elif flavour == "ext":
         r = rec.Ext()
     elif flavour == "twisted":
